@@ -178,7 +178,7 @@ func (c *Ctx) Finish(verifDir string, start time.Time, extra map[string]interfac
 	// print obligations
 	sort.SliceStable(c.Obls, func(i, j int) bool { return c.Obls[i].Rule < c.Obls[j].Rule })
 	for _, o := range c.Obls {
-		if o.Verdict == OK && os.Getenv("PDSA_VERBOSE") == "" {
+		if (o.Verdict == OK || o.Verdict == INFO) && os.Getenv("PDSA_VERBOSE") == "" {
 			continue
 		}
 		fmt.Printf("%-13s %s  %s  [%s]  req: %s", o.Verdict, o.Pos, o.Construct, o.Rule, o.Req)
@@ -215,21 +215,21 @@ func (c *Ctx) Finish(verifDir string, start time.Time, extra map[string]interfac
 	cov := map[string]interface{}{
 		"explanation": "Static analysis of /repo's current working tree (go/packages type-checked program + go/ssa); decides structural necessary conditions of " +
 			c.Prop + ", not the runtime behaviour. Rules applied: " + strings.Join(c.Rules, " || "),
-		"obligations":         total,
-		"discharged":          nOK,
-		"evaluations":         total,
-		"distinct_nontrivial": len(distinct),
-		"rule":                "one evaluation = one (rule, construct) obligation generated from the type-checked program; distinct = distinct rule|construct keys; every obligation is non-trivial in that it names a concrete code construct that had to satisfy the rule",
-		"samples":             samples,
-		"functions_analysed":  len(c.FnSeen),
-		"functions":           fns,
-		"program_functions":   len(c.P.Funcs),
-		"packages":            len(c.P.Pkgs),
-		"excluded_packages":   excludedPkgs,
-		"undecided":           nU,
+		"obligations":            total,
+		"discharged":             nOK,
+		"evaluations":            total,
+		"distinct_nontrivial":    len(distinct),
+		"rule":                   "one evaluation = one (rule, construct) obligation generated from the type-checked program; distinct = distinct rule|construct keys; every obligation is non-trivial in that it names a concrete code construct that had to satisfy the rule",
+		"samples":                samples,
+		"functions_analysed":     len(c.FnSeen),
+		"functions":              fns,
+		"program_functions":      len(c.P.Funcs),
+		"packages":               len(c.P.Pkgs),
+		"excluded_packages":      excludedPkgs,
+		"undecided":              nU,
 		"known_findings_matched": knownMatched,
-		"all_obligations":     c.Obls,
-		"exhaustive":          true,
+		"all_obligations":        c.Obls,
+		"exhaustive":             true,
 	}
 	for k, v := range extra {
 		cov[k] = v
